@@ -40,6 +40,7 @@
      round trip       E -/+ (16 eps E + 16 ulp(r) * local dE/dr  [+ 64 eps E below the table]
                              [+ (range bracket of knot k) * dE/dr if E is near knot k]
                              [+ 128 ulp(r_k) * dE/dr if range(E) is near the tabulated r_k])
+     prime index      the knot within E'(1 -/+ 1e-11) of the user's first scaled energy E'
      neighbourhood    "near knot k" = within 128 ulp of x_k (ranks of x_k -/+ 128 ulp supplied)
      energy loss      monotone in the step up to l + 32 eps E; scope of deviation F-LOSS-2:
                       -1024 eps E <= loss < 0
@@ -182,6 +183,17 @@ ClassOK(t, q) ==
        [] q.c = "uk" -> TRUE
        [] OTHER -> FALSE
   /\ q.c \in Classes => GridBin(t.xk, q.x) = ClassBin(n, q.c, k)
+
+\* ---- the prime index a builder must store ---------------------------------------------
+\* ValueGridXsBuilder is given the first E-scaled energy E' (t.ep), which lies ON a grid point of
+\* the user's log grid; values at and above that point are pre-scaled by E.  From the grid
+\* DEFINITION the prime index is the (unique) knot that equals E' within the builder's documented
+\* soft equality (t.eplo/t.ephi = E'(1 -/+ 1e-11), tolerance table: C_PRIME).  Clause
+\* BuilderPrime: the stored prime_index (t.pb) is that knot.  All value clauses of a builder-made
+\* table are evaluated with the EXPECTED index: a builder that stores another one makes the
+\* calculator miss the tabulated value at the affected knot and in the two adjacent bins.
+PrimeCandidates(t) == {k \in 0..(t.n - 1) : t.eplo <= t.xk[K1(k)] /\ t.xk[K1(k)] <= t.ephi}
+ExpectedPrime(t) == CHOOSE k \in PrimeCandidates(t) : TRUE
 
 \* ---- table-level relations ---------------------------------------------------------
 TableMonotone(t) == \A i \in 1..(t.n - 1) : t.yk[i] <= t.yk[i + 1]
